@@ -197,5 +197,9 @@ SUBCHECKS = [
 ]
 
 
+# coverage-guided campaigns of the thorough tier (pv/fuzz.py): (sub-check, libFuzzer runs per shard)
+FUZZ = [("random-L0", 40000), ("random-L1-overlapping", 20000)]
+
+
 def subcheck(name):
     return {s.name: s for s in SUBCHECKS}[name]
